@@ -142,7 +142,8 @@ pub fn run_cfg_j(cfg: &Value, run: &Value) -> Value {
            "kid": get("cup").get("latest").and_then(|x| x.as_u64()).unwrap_or(0),
            "apps": apps_j(&apps), "sys": sys,
            "os": get("os_version").as_str().unwrap_or("1.0"),
-           "url": get("url").as_str().unwrap_or("http://omaha.example/svc/v1")})
+           "url": get("url").as_str().unwrap_or("http://omaha.example/svc/v1"),
+           "twin": cfg.get("twin").and_then(|x| x.as_bool()).unwrap_or(false)})
 }
 
 fn build(w: &W, cfg: &Value, run: &Value) -> (Option<ControlHandle>, EvStream) {
@@ -471,6 +472,7 @@ impl Driver {
             }
             "restart" | "crash" => {
                 self.crash(at);
+                self.poll_ctl();
                 let run = st.get("run").cloned().unwrap_or(json!({}));
                 let cfgv = run_cfg_j(&self.cfg, &run);
                 self.start_run(&run);
@@ -481,7 +483,10 @@ impl Driver {
                 self.stream = None;
                 self.emit(json!({"k": "dropstream"}));
             }
-            "end" => return false,
+            "end" => {
+                self.emit(json!({"k": "cut"}));
+                return false;
+            }
             _ => {}
         }
         true
@@ -711,7 +716,9 @@ pub fn run_scenario(sc: &Value) -> Vec<String> {
             .cloned()
             .or_else(|| p.downcast_ref::<&str>().map(|s| s.to_string()))
             .unwrap_or_else(|| "panic".into());
-        lk(&w).emit(json!({"k": "panic", "msg": msg}));
+        let loc = LAST_PANIC_LOC.with(|c| c.borrow().clone());
+        let loc = loc.rsplit("/repo/").next().unwrap_or("").to_string();
+        lk(&w).emit(json!({"k": "panic", "msg": msg, "loc": loc}));
     }
     // dropping the driver drops the machine; outstanding control requests then resolve to `gone`
     d.stream = None;
